@@ -3,6 +3,7 @@ package main
 import (
 	"bytes"
 	"fmt"
+	"io"
 	"strings"
 
 	"zombiezen.com/go/commonmark"
@@ -188,21 +189,35 @@ func nontrivialTree(n commonmark.Node) bool {
 	return false
 }
 
+// edgeReader ends every Read right after a carriage return (the byte whose meaning depends on the byte that follows it)
+// and otherwise fills the caller's buffer: the read schedule that puts every CR at the end of what has been read so far.
+type edgeReader struct {
+	data []byte
+	pos  int
+}
+
+func (r *edgeReader) Read(p []byte) (int, error) {
+	if r.pos >= len(r.data) {
+		return 0, io.EOF
+	}
+	n := len(p)
+	if n > len(r.data)-r.pos {
+		n = len(r.data) - r.pos
+	}
+	if i := bytes.IndexByte(r.data[r.pos:r.pos+n], '\r'); i >= 0 {
+		n = i + 1
+	}
+	copy(p, r.data[r.pos:r.pos+n])
+	r.pos += n
+	return n, nil
+}
+
 // streamParse parses through NewBlockParser + Extract + Rewrite (the streaming route).
 func streamParse(input []byte) ([]*commonmark.RootBlock, commonmark.ReferenceMap, error) {
-	p := commonmark.NewBlockParser(bytes.NewReader(input))
-	var blocks []*commonmark.RootBlock
-	refs := make(commonmark.ReferenceMap)
-	for {
-		b, err := p.NextBlock()
-		if err != nil {
-			ip := &commonmark.InlineParser{ReferenceMatcher: refs}
-			for _, rb := range blocks {
-				ip.Rewrite(rb)
-			}
-			return blocks, refs, err
-		}
-		blocks = append(blocks, b)
-		refs.Extract(b.Source, b.AsNode())
-	}
+	return streamParseFrom(bytes.NewReader(input))
+}
+
+// streamParseEdgy is streamParse over an edgeReader.
+func streamParseEdgy(input []byte) ([]*commonmark.RootBlock, commonmark.ReferenceMap, error) {
+	return streamParseFrom(&edgeReader{data: input})
 }
